@@ -136,6 +136,10 @@ class MuEngine(Engine):
                         ok = False; break
         self._small[name] = ok
         return ok
+    def memoizable(self, callee):
+        # tiny pure helpers are interpreted in place so that NULL-test refinements of their arguments reach the caller
+        return callee not in self.no_memo and not self._is_small_pure(callee)
+
     def _inline(self, callee):
         return callee in self._relevant or callee in self.generic_atomic or self._is_small_pure(callee)
     QUEUE_FIELDS = {'mu': 'nsync_mu_s_.waiters', 'cv': 'nsync_cv_s_.waiters'}
@@ -225,9 +229,14 @@ class MuEngine(Engine):
     LOCK_SLOW = 'nsync_mu_lock_slow_'
     CALLER_ONLY_GHOST = (('cond_last',),)
 
+    def atomic_load_other(self, st, f, inst, p):
+        # a thread polling the waiting flag of its own waiter record has queued itself: from here on it "has waited"
+        if isinstance(p, Ptr) and p.path and p.path[-1][0] == 'f' and p.path[-1][1] == 'nsync_waiter_s.waiting' \
+                and p.base.startswith(self.PRIVATE_BASES):
+            st.ghost[('flag', 'slept', f.fn.name)] = 1
+        return TOP
+
     def on_call(self, st, inst, callee, args):
-        if callee in self.SLEEP_CALLS:
-            st.ghost[('flag', 'slept', st.top.fn.name)] = 1
         if callee == 'nsync_mu_semaphore_v':
             for k in [k for k in st.ghost if isinstance(k, tuple) and k[:2] == ('flag', 'owes_desig')]:
                 del st.ghost[k]
@@ -276,6 +285,7 @@ def entries(mod, K):
     for clear in (0, DESIG):
         for mode, T in (('W', WT), ('R', RT)):
             add('nsync_mu_lock_slow_[clear=%d,%s]' % (clear, mode), 'nsync_mu_lock_slow_', [MU, WAITER, clear, T], 'none', {'hold': mode}, nn=[WAITER])
+            E[-1]['ghost'][('flag', 'ls_clear')] = clear
     for mode, T in (('W', WT), ('R', RT)):
         add('nsync_mu_unlock_slow_[%s]' % mode, 'nsync_mu_unlock_slow_', [MU, T], mode, {'hold': 'none'})
     COND = Ptr('client:condition', ())
